@@ -368,11 +368,12 @@ def direct_longitude_rule(repo, rep):
                      'to zone 1 E 230163.8816 N 6666825.4605' % stmt_text(bad)[:60], expected='the longitude folded by a whole turn into [-180, 180]', actual='unfolded')
     else:
         rep.holds('R-RANGE', key, where(f, f.node), 'the longitude from vincdir is folded by a whole turn before geo2grid sees it')
+        return True
+    return False
 
 
 def direct_rules(repo, rep):
     hemisphere_of_point2_rule(repo, rep)
-    direct_longitude_rule(repo, rep)
     clamped = seed_range_rule(repo, rep)
     first_estimate_rule(repo, rep, clamped=bool(clamped))
     reprojection_hemisphere_rule(repo, rep)
@@ -528,8 +529,11 @@ def run(repo, rep):
     # functions call (Vincenty inverse / direct formulas, the accepted band of the projection in both directions) are part of this property
     from . import c04, c05, c01, c02
     c05.run(repo, rep)
-    # vincdir_utm hands lon2 to geo2grid, which accepts [-180, 180] only: here the longitude is compared as a number, not modulo a turn
-    c04.LON_MODULO_TURN[0] = False
+    # vincdir_utm hands lon2 to geo2grid, which accepts [-180, 180] only.  While vincdir_utm folds the longitude by a whole turn first (the
+    # dataflow rule below) any representative vincdir returns will do and the longitude is compared modulo a turn, as in C04; without the
+    # fold it is compared as a number
+    folded = direct_longitude_rule(repo, rep)
+    c04.LON_MODULO_TURN[0] = bool(folded)
     try:
         c04.run(repo, rep)
     finally:
